@@ -492,6 +492,18 @@ func decodeUnreserved(s string) string {
 	return sb.String()
 }
 
+// exceptSlashes decodes every escape but the encoded slash (spelled in upper case).
+func exceptSlashes(s string) string {
+	parts := strings.Split(upperEscapes(s), "%2F")
+	for i := range parts {
+		if u, err := url.PathUnescape(parts[i]); err == nil {
+			parts[i] = u
+		}
+	}
+
+	return strings.Join(parts, "%2F")
+}
+
 func upperEscapes(s string) string {
 	b := []byte(s)
 	for i := 0; i+2 < len(b); i++ {
@@ -609,6 +621,13 @@ func TestEncodedSlashHandling(t *testing.T) {
 
 				path = insertSlash(t, base, lower)
 			}
+		}
+
+		// characters which Go's URL type does not regard as valid in an escaped path (it then re-creates the escaped
+		// form from the decoded one, which must not make the encoded slash disappear before heimdall looks at it)
+		if !strings.HasSuffix(path, "/") && rapid.IntRange(0, 3).Draw(t, "oddCharacter") == 0 {
+			path += rapid.SampledFrom([]string{"{x}", "|", "^", "a{"}).Draw(t, "odd")
+			vkit.S.Label("slash.path_with_character_go_re_escapes")
 		}
 
 		// the reference works on the spelling with only the slash encoded; the request may spell further unreserved
@@ -743,7 +762,9 @@ func TestEncodedSlashHandling(t *testing.T) {
 
 			switch setting {
 			case "no_decode":
-				if decodeUnreserved(up) != decodeUnreserved(path) {
+				// the same path up to the spelling of characters other than the encoded slash (a character like "{" may reach
+				// the upstream as "%7B")
+				if exceptSlashes(up) != exceptSlashes(path) {
 					t.Fatalf("no_decode: upstream received %s for client path %s", up, path)
 				}
 			case "on":
